@@ -545,10 +545,10 @@ def parseLog (sep : Bytes) (file : Bytes) : Option (List (List Bytes)) :=
     0-d array; `some shape`: an ndarray with `ndim ≥ 1`.  `toks`: the texts `__format__` returns for the
     entries (external), indexed by the C-order flat index of the LOGICAL multi-index, i.e. `toks[flat idx]`
     is the text of `state[idx]` (exactly one text for `size ≤ 1`).
-    Memory layout of the array (what `np.nditer(state)` with its default `order='K'` follows):
-    `perm` lists the axes from the slowest- to the fastest-varying one in memory (C-contiguous: `[0,1,…]`,
-    Fortran-ordered / transposed: `[…,1,0]`, general views: decreasing `|stride|`), and `flip a` says that
-    axis `a` has a negative stride (nditer then walks it from its last index down to 0). -/
+    `perm` / `flip` describe the memory layout of the array (axes from the slowest- to the fastest-varying one
+    in memory; axes with a negative stride).  Since the repair 7a67c87 the code iterates with
+    `np.nditer(state, flags=['multi_index'], order='C')`, so the layout is an input that the model ignores
+    (theorem `scalarfile_layout_irrelevant`). -/
 structure LogSig where
   tag : Bytes
   shape : Option (List Nat)
@@ -568,15 +568,6 @@ def multiIndex : List Nat → Nat → List Nat
 def flatIndex (sh idx : List Nat) : Nat :=
   (sh.zip idx).foldl (fun acc p => acc * p.1 + p.2) 0
 
-/-- the multi-index `np.nditer(state, flags=['multi_index'])` reports at its `k`-th step: `k` is decomposed
-    in the mixed radix of the axes in memory order (`perm`, slowest first); an axis with a negative stride
-    runs backwards -/
-def iterIndex (sh perm : List Nat) (flip : List Bool) (k : Nat) : List Nat :=
-  let digits := multiIndex (perm.map fun a => sh.getD a 1) k
-  (List.range sh.length).map fun a =>
-    let d := digits.getD (perm.idxOf a) 0
-    if flip.getD a false then sh.getD a 1 - 1 - d else d
-
 def litCommaSp : Bytes := bytes! ", "
 def litIteration : Bytes := bytes! "Iteration"
 def litDotCsv : Bytes := bytes! ".csv"
@@ -592,9 +583,10 @@ def sigColumns (fmtEmpty : Bool) (s : LogSig) : Except String (List (Bytes × By
   | some sh =>
     let size := sh.foldl (· * ·) 1
     if size > 1 then
-      -- `it.value` and `it.multi_index` of the SAME nditer step: label and value stay paired
+      -- `np.nditer(state, flags=['multi_index'], order='C')`: step `k` visits the C-order multi-index of `k`;
+      -- `it.value` and `it.multi_index` belong to the SAME step, so label and value stay paired
       .ok ((List.range size).map fun k =>
-        let idx := iterIndex sh s.perm s.flip k
+        let idx := multiIndex sh k
         (indexTag s.tag idx, s.toks.getD (flatIndex sh idx) []))
     else if fmtEmpty then .ok [(s.tag, s.toks.headD [])]   -- `object.__format__(arr, '')` = `str(arr)`
     else .error "TypeError"                                 -- `ndarray.__format__` with a format spec, ndim ≥ 1
